@@ -22,8 +22,8 @@ def report_busy(ctx, scenarios, obs):
             if isinstance(res, dict) and res.get("busy"):
                 n += 1
                 if n <= 3:
-                    core.add_violation(ctx, "after operation %r returned, field models are still flagged as solved-for / hold solver "
-                                            "nodes: %s (a later call that only refers to such a field would overwrite it)"
+                    core.add_violation(ctx, "after operation %r returned, something of the call is left in the object's model - fields still "
+                                            "flagged as solved-for, solver nodes, or a foreach / dist expansion still installed in a block: %s"
                                        % (sc["ops"][oi], res["busy"][:6]), {"scenario": brief(sc, oi), "busy": res["busy"]})
     ctx.coverage["idle_flag_observations"] = ctx.coverage.get("idle_flag_observations", 0) + sum(
         len(o.get("ops", [])) for o in obs if isinstance(o, dict))
